@@ -74,6 +74,10 @@ def shadowing():
         "fn main() { let x = 1; { let x = \"s\"; println(x); } println(x + 1); }",
         "fn main() { let x = 1; if true { let x = x + 1; println(x); }; println(x); }",
         "fn main() { let x = 1; for x in [7, 8] { println(x); } println(x); }",
+        # the iterable is evaluated in the scope OUTSIDE the loop: a loop variable named like a variable it reads
+        "fn warm(k: int) -> int { let a = k; a } fn count(n: int) -> int { let c = 0; for n in 0..n { c += 1; } c } fn main() { println(warm(7)); println(count(3)); println(count(0), count(5)); }",
+        "fn main() { let i = 3; for i in 0..i { println(\"in\", i); } println(i); let l = [[1, 2], [3]]; for l in l[0] { println(l); } println(l); for i in 0..2 { for i in i..(i + 2) { print(i, \"\"); } } println(\"\"); }",
+        "let g = 2; fn f() -> int { let s = 0; for g in 0..(g + 1) { s += g; } s + g } fn main() { println(f(), g); let w = \"ab\"; for w in w { println(w); } println(w); }",
         "fn main() { let x = 1; let i = 0; while i < 2 { i += 1; let x = i * 10; println(x); } println(x); }",
         "let x = 100; fn f() -> int { x } fn main() { let x = 1; println(x, f()); }",
         "let x = 100; fn f(x: int) -> int { x + 1 } fn main() { println(f(1), x); }",
@@ -180,6 +184,18 @@ def pending_operands():
             out.append(pre + f"fn main() {{ let acc = 0; let l = [1]; l.pop(); for i in 0..70 {{ try {{ {body} }} catch e {{ acc += 10; }}; }} println(acc); }}")
             out.append(pre + f"fn w(i: int) -> int {{ let acc = 0; let l = [1]; l.pop(); try {{ {body} }} catch e {{ acc += 10; }}; acc }} "
                              f"fn main() {{ let s = 0; for i in 0..70 {{ s += w(i); }} println(s); }}")
+    return out
+
+
+def lambda_scope_programs():
+    """A function literal created inside a block (if / loop / bare block, at several depths) and called — directly and
+    through a higher-order function — from blocks one and two levels deeper that declared locals (shadowing outer ones)
+    before the call: the call neither sees nor disturbs the caller's block scopes."""
+    out = []
+    for opener, closer in (("{", "}"), ("if true {", "}"), ("for q in 0..1 {", "}"), ("{ {", "} }"), ("{ { {", "} } }")):
+        out.append("fn apply(f: fn(v: int) -> int, v: int) -> int { f(v) } fn main() { let x = 1; " + opener +
+                   " let inc = fn(v: int) -> int { let x = v + 1; x }; { let x = 2; let y = 5; println(inc(10)); println(x, y); "
+                   "{ let x = 3; let z = 7; println(apply(inc, 20)); println(x, y, z); } println(x, y); } println(inc(0), x); " + closer + " println(x); }")
     return out
 
 
@@ -343,6 +359,15 @@ def modelled_members_and_casts():
     ]
 
 
+def overlapping_match():
+    """`match` takes the FIRST arm that lists the value: arms sharing a literal (the analyzer accepts them)."""
+    return [
+        "fn cls(n: int) -> str { match n { 1 | 2 | 3 => \"small\", 3 | 4 | 5 => \"medium\", 5 | 6 => \"big\", _ => \"other\" } } fn main() { for i in 0..8 { println(i, cls(i)); } }",
+        "fn main() { let s = \"b\"; println(match s { \"a\" | \"b\" => 1, \"b\" | \"c\" => 2, \"b\" => 3, _ => 4 }); for k in [true, false] { println(match k { true => \"t1\", true => \"t2\", _ => \"f\" }); } }",
+        "fn main() { let i = 0; while i < 4 { match i { 0 | 1 => { println(\"lo\", i); }, 1 | 2 => { println(\"mid\", i); }, 2 | 3 => { println(\"hi\", i); }, _ => { println(\"none\"); } }; i += 1; } }",
+    ]
+
+
 def tour():
     """Corners of the language that the typed generator never reaches: type definitions (top level, nested, local), event
     functions, trigger annotations, type imports from a host module, the builtins debug / fmt / assert / assert_eq,
@@ -380,6 +405,7 @@ def tour_vm_only():
 def all_families():
     return {
         "tour": tour(),
+        "overlapping_match": overlapping_match(),
         "snapshot": snapshot(),
         "sharing": sharing(),
         "shadowing": shadowing(),
@@ -387,7 +413,7 @@ def all_families():
         "values": values_of_constructs(),
         "intmatrix": int_matrix(),
         "pending": pending_operands(),
-        "lambdas": lambdas(),
+        "lambdas": lambdas() + lambda_scope_programs(),
         "features": feature_corpus(),
     }
 
